@@ -147,8 +147,15 @@ class Typer:
             for n in ast.walk(fi.node):
                 if isinstance(n, ast.AnnAssign) and isinstance(n.target, ast.Name):
                     env.setdefault(n.target.id, self.ann(n.annotation, fi.module))
+            # locals of helpers that are analysed spliced into this function (named `x§helper`)
+            from .flow import spliced
+            s = spliced(self.prog, fi)
+            for e in s.events:
+                if e.kind == "spliced" and e.term[0] == "marker" and e.term[1] in self.prog.functions:
+                    h = self.prog.functions[e.term[1]]
+                    for nm, t in list(self.func_env(h).items()):
+                        env.setdefault(f"{nm}§{h.name}", t)
             # un-annotated locals that stayed opaque: type of their (first) bound value
-            s = summarise(self.prog, fi)
             for e in s.of_kind("bind"):
                 nm = e.term[1][1]
                 if nm not in env or env[nm] == ANY:
